@@ -161,11 +161,11 @@ def run(tier, seed):
         raise Broken('zic rejects the era-chain policies')
     kept4set.discard('rules')
     cov['era_chains'] = len(kept4set); cov['era_chains_rejected_by_zic'] = len(rej4)
-    labels4 = {c[4]: (c[0], c[1], c[2], c[3]) for i, c in enumerate(chains) if i in kept4set}
+    labels4 = {c[4]: (c[0], c[1], c[2], rules4 + '\n' + c[3]) for i, c in enumerate(chains) if i in kept4set}   # self-contained source per zone
     text4 = rules4 + '\n' + '\n'.join(c[3] for i, c in enumerate(chains) if i in kept4set) + '\n'
     do_source('S4-erachains', text4, sorted(labels4), [(2000, 2050)] + ([(2006, 2040)] if thorough else []),
               labels=labels4, arduino=({'step': 900, 'win': 3 * 3600} if thorough else {'step': 3600, 'win': 2 * 3600}))
-    samples += [{'era_chain': labels4[z][2], 'source_text': labels4[z][3]} for z in sorted(labels4)[200:202]]
+    samples += [{'era_chain': labels4[z][2], 'source_text': labels4[z][3].split('\n', 8)[-1]} for z in sorted(labels4)[200:202]]
     # ---- S5: one transition close to the year boundary (UTC-year keyed cache of the basic processor), exhaustive product
     edge = mutants.year_boundary()
     kept5, rej5 = zic_filter([(i, c[3]) for i, c in enumerate(edge)], 'S5')
